@@ -253,6 +253,7 @@ def run(rep, tier, props):
     stats = dict(abstract=0, abstract_exact=0, model=0, accuracy_cases=0, accuracy_solves=0, mutated=0,
                  failed=0, drift=0, licence_limited=0)
     acc_max = {}
+    drift_seen = set()
     reduced = []
     pred_gap = 0.0
     approx = {r['L']: r['approx'] for r in recs}
@@ -269,8 +270,10 @@ def run(rep, tier, props):
             stats['licence_limited'] += r['notes'].count('licence-limited')
         if r['drift']:
             stats['drift'] += 1
-            if stats['drift'] <= 3:
-                rep.note('transcription drift (not an alarm): %s' % (r['drift'][0],))
+            kd = r['drift'][0].get('kind')
+            if kd not in drift_seen:
+                drift_seen.add(kd)
+                rep.note('transcription drift (not an alarm; first of its kind): %s' % (r['drift'][0],))
         if r['kind'] == 'abstract':
             rep.count(key=r['key'])
             stats['abstract'] += 1
@@ -343,8 +346,9 @@ def run(rep, tier, props):
         elif not v['exact']:
             conform += 1
             stats['drift'] += 1
-            if stats['drift'] <= 3:
-                rep.note('transcription drift (not an alarm): to_socp output differs from SocApprox in %s but keeps the ideal (case %s)' % (v['diff'], tag))
+            if 'output' not in drift_seen:
+                drift_seen.add('output')
+                rep.note('transcription drift (not an alarm; first of its kind): to_socp output differs from SocApprox in %s but keeps the ideal (case %s)' % (v['diff'], tag))
         else:
             accepted += 1
             conform += 1
@@ -353,7 +357,8 @@ def run(rep, tier, props):
         if (not v['input']) != bool(direct):
             raise tlc.MachineryError('TLC and the harness disagree on InputUntouched for %s (TLC input=%s, harness mutated=%s)'
                                      % (tag, v['input'], direct))
-        if not v['asTranscribed'] and stats['drift'] <= 3:
+        if not v['asTranscribed'] and 'asTranscribed' not in drift_seen:
+            drift_seen.add('asTranscribed')
             rep.note('transcription drift (not an alarm): the input after the call is not what SocApprox[QmatFixed=%s] predicts (case %s)'
                      % (FLAGS['QmatFixed'], tag))
     rep.traces_validated += conform
